@@ -318,7 +318,8 @@ Verdict IoEngine::exec_local(const Plan& plan, const std::string& B, const std::
 {
   std::vector<std::string> args = split_args(plan.get("args", "- --xml -"));
   int xml_index = (int)plan.geti("xmlfile", -1);
-  bool via_stdin = !args.empty() && args[0] == "-";      // generated vectors put the input first
+  bool via_stdin = !args.empty() && args[0] == "-";      // generated vectors put the input first ...
+  if (!args.empty() && args[0].compare(0, 2, "--") == 0) for (size_t i = 0; i + 1 < args.size(); i++) if (args[i] == "--input-xml" && args[i + 1] == "-") via_stdin = true;   // ... or name it through --input-xml
   std::vector<size_t> lens = lens_from_cuts(cuts, B.size());
   for (auto& a : args) { if (a == "@X") st.add("fault.output_cannot_be_opened"); else if (a == "@FULL") st.add("fault.output_disk_full"); }
   procemu::Result A = procemu::run_gama_local(args, B, lens, err_end);
@@ -547,7 +548,11 @@ std::string gen_args(Rng& g, int& xmlfile)
   std::string a = g.chance(7, 8) ? "-" : "@IN";
   // "every combination of command-line options": one vector in forty names no input at all (options only), one in
   // forty names it twice
-  { int r = (int)g.below(40); if (r == 0) a = ""; else if (r == 1) a += g.chance(1, 2) ? " -" : " @IN"; }
+  std::string input_opt;
+  { int r = (int)g.below(40); if (r == 0) a = ""; else if (r == 1) a += g.chance(1, 2) ? " -" : " @IN";
+    // the input named through --input-xml instead (after the other options), and the one-word invocations
+    else if (r == 2) { input_opt = " --input-xml " + a; a = ""; }
+    else if (r == 3) { static const char* ONE[] = {"--help", "--version", "--dumpversion", "--verbose", "-help", "--", "--input-xml"}; return ONE[g.below(7)]; } }
   int nf = 0;
   // an output file is a memfd; one in ten is a file-layer fault instead: a path that cannot be opened, or a full disk
   // (and one name in forty is the empty string: --xml '')
@@ -583,6 +588,7 @@ std::string gen_args(Rng& g, int& xmlfile)
     }
   }
   (void)other_out;
+  a += input_opt;
   if (g.chance(1, 20)) a += " --algorithm";          // option without its value at the very end
   if (g.chance(1, 30)) a += " --bogus-option 1";
   return a;
